@@ -2,6 +2,7 @@ package main
 
 import (
 	"fmt"
+	"os"
 	"reflect"
 	"strconv"
 	"strings"
@@ -9,6 +10,8 @@ import (
 	"github.com/ThreeDotsLabs/watermill/components/cqrs"
 	"github.com/ThreeDotsLabs/watermill/message"
 	gogotypes "github.com/gogo/protobuf/types"
+	"google.golang.org/protobuf/encoding/protowire"
+	stdproto "google.golang.org/protobuf/proto"
 	"google.golang.org/protobuf/types/known/anypb"
 	"google.golang.org/protobuf/types/known/durationpb"
 	"google.golang.org/protobuf/types/known/emptypb"
@@ -348,12 +351,73 @@ func valueFor(g cqrsGen) (arg interface{}, target interface{}, opt canonOpt) {
 		return p.Elem().Interface(), target, canonOpt{}
 	case "s":
 		v := genStdProto(g.typ, g.seed)
+		if withUnknown(g) {
+			// a value that came from a richer schema: unknown fields are part of a protobuf value
+			// (proto.Equal compares them, proto.Marshal writes them)
+			m := v.(stdproto.Message)
+			m.ProtoReflect().SetUnknown(genUnknownFields(wh.NewRng(g.seed ^ 0x5eed)))
+		}
 		return v, reflect.New(reflect.TypeOf(v).Elem()).Interface(), canonOpt{nilEmptySame: true}
 	case "g":
 		v := genGogoProto(g.typ, g.seed)
+		if withUnknown(g) {
+			if f := reflect.ValueOf(v).Elem().FieldByName("XXX_unrecognized"); f.IsValid() && f.CanSet() {
+				f.SetBytes(genUnknownFields(wh.NewRng(g.seed ^ 0x5eed)))
+			}
+		}
 		return v, reflect.New(reflect.TypeOf(v).Elem()).Interface(), canonOpt{nilEmptySame: true}
 	}
 	panic("family")
+}
+
+// withUnknown: every third protobuf value carries unknown fields (decided by the value seed, so a replay regenerates it).
+func withUnknown(g cqrsGen) bool { return g.seed%3 == 0 }
+
+// gogoStdUnknown: the deprecated gogo ProtobufMarshaler given a message of the NEW protobuf API that carries unknown
+// fields loses them in Marshal on the unchanged code (gogo's reflective encoder does not see them and reports no error,
+// so the std fallback is not taken): finding `gogo-marshaler-new-api-message-unknown-fields`. These cases are generated
+// only once that finding is listed as open (checks/c16.py sets the variable), and are then classified as known.
+var gogoStdUnknown = os.Getenv("C16_GOGO_STD_UNKNOWN") == "1"
+
+// genUnknownFields builds well-formed wire data for field numbers no well-known type uses (>= 1000):
+// a varint, a length-delimited, a fixed64 and a fixed32 field, 1..4 of them.
+func genUnknownFields(r *wh.Rng) []byte {
+	var b []byte
+	n := 1 + r.Intn(4)
+	for i := 0; i < n; i++ {
+		num := protowire.Number(1000 + r.Intn(5000))
+		switch r.Intn(4) {
+		case 0:
+			b = protowire.AppendTag(b, num, protowire.VarintType)
+			b = protowire.AppendVarint(b, r.Next()>>uint(r.Intn(64)))
+		case 1:
+			b = protowire.AppendTag(b, num, protowire.BytesType)
+			b = protowire.AppendBytes(b, []byte(genStr(r)))
+		case 2:
+			b = protowire.AppendTag(b, num, protowire.Fixed64Type)
+			b = protowire.AppendFixed64(b, r.Next())
+		default:
+			b = protowire.AppendTag(b, num, protowire.Fixed32Type)
+			b = protowire.AppendFixed32(b, uint32(r.Next()))
+		}
+	}
+	return b
+}
+
+// canonValue is the canonical text of a value for the round-trip comparison. For messages of the new protobuf API
+// the exported fields cannot show unknown fields, so the unknown bytes of the message and its deterministic
+// re-marshalling (which includes unknown fields at any depth) are appended.
+func canonValue(opt canonOpt, v interface{}) string {
+	s := opt.canon(deref(v))
+	if m, ok := v.(stdproto.Message); ok {
+		s += "|unknown:" + wh.Hex(m.ProtoReflect().GetUnknown())
+		if b, err := (stdproto.MarshalOptions{Deterministic: true}).Marshal(m); err == nil {
+			s += "|wire:" + wh.Hex(b)
+		} else {
+			s += "|wire:error"
+		}
+	}
+	return s
 }
 
 func deref(v interface{}) interface{} {
@@ -379,7 +443,7 @@ func runCqrs(kind string, g cqrsGen) (req, obs string, serialisable bool) {
 	mar, fixed := marshalerFor(kind, g.variant)
 	arg, target, opt := valueFor(g)
 	name := mar.Name(arg)
-	value := opt.canon(deref(arg))
+	value := canonValue(opt, arg)
 	serialisable = true
 	if g.family == "n" || (g.family == "j" && reflect.TypeOf(deref(arg)) == reflect.TypeOf(Unserialisable{})) {
 		serialisable = false
@@ -406,7 +470,7 @@ func runCqrs(kind string, g cqrsGen) (req, obs string, serialisable bool) {
 		if err := mar.Unmarshal(msg, target); err != nil {
 			return "err:unmarshal"
 		}
-		return "ok " + uuidTok(msg, fixed) + " " + metaTok(msg.Metadata) + " " + wh.HexS(mar.NameFromMessage(msg)) + " " + wh.HexS(opt.canon(deref(target)))
+		return "ok " + uuidTok(msg, fixed) + " " + metaTok(msg.Metadata) + " " + wh.HexS(mar.NameFromMessage(msg)) + " " + wh.HexS(canonValue(opt, target))
 	}()
 	return req, obs, serialisable
 }
@@ -417,6 +481,9 @@ func cqrsCases(out *wh.Out, r *wh.Rng, n int) {
 		out.Case(req, obs)
 		out.Count("cqrs.marshaler." + kind)
 		out.Count("cqrs.family." + g.family)
+		if (g.family == "s" || g.family == "g") && withUnknown(g) {
+			out.Count("cqrs.proto_value_with_unknown_fields." + kind)
+		}
 		if ser {
 			// library round-trips are TESTS of the codec hypothesis (see NOTE)
 			out.Count("test.codec_round_trip." + kind)
@@ -433,7 +500,14 @@ func cqrsCases(out *wh.Out, r *wh.Rng, n int) {
 	}
 	for i := 0; i < n/6; i++ {
 		// the gogo marshaler given messages of the new API (accepted directly or through the std fallback)
-		emit("gogo", cqrsGen{"s", i, r.Next() >> 1, r.Intn(4), true})
+		g := cqrsGen{"s", i, r.Next() >> 1, r.Intn(4), true}
+		if withUnknown(g) && !gogoStdUnknown {
+			g.seed++ // same message without unknown fields (see gogoStdUnknown)
+			if withUnknown(g) {
+				g.seed++
+			}
+		}
+		emit("gogo", g)
 	}
 	for i := 0; i < 12; i++ {
 		// values that are not protobuf messages: Marshal must fail, nothing to round-trip
